@@ -33,6 +33,33 @@ def extra_dce(gen, blocks):
         last["instructions"].append({"op": ["branch", S("x", w)], "address": 0x2010})
 
 
+def flag_diamonds(rnd, n):
+    """A flag defined on both arms of a diamond, read only by the edge guards after the join, and overwritten on both
+    successors before anything else reads it (the guard is the only use of the arm definitions)."""
+    S, C = ilgen.S, ilgen.C
+    out = []
+    for i in range(n):
+        w = 32
+        flags = ["f"] + (["g"] if rnd.random() < 0.5 else [])
+        def ins(op, a): return {"op": op, "address": a}
+        k0 = rnd.choice([1, 5, 10, 100])
+        arm1 = [ins(["assign", S(fl, 1), C(rnd.choice([0, 1]), 1)], 0x1010 + 4 * j) for j, fl in enumerate(flags)]
+        arm2 = [ins(["assign", S(fl, 1), ["cmpeq", S("a", w), C(rnd.choice([0, 3, 7]), w)] if rnd.random() < 0.5 else C(1 - arm1[j]["op"][2][1] if False else rnd.choice([0, 1]), 1)], 0x1020 + 4 * j) for j, fl in enumerate(flags)]
+        if rnd.random() < 0.5: arm1.append(ins(["store", C(0x1000, 64), S("a", w)], 0x1018))
+        fl = flags[-1]
+        guard = S(fl, 1) if len(flags) == 1 or rnd.random() < 0.5 else ["and", S("f", 1), S("g", 1)]
+        join = [ins(["assign", S("t", w), ["add", S("a", w), C(1, w)]], 0x1030)] if rnd.random() < 0.7 else []
+        b4 = [ins(["assign", S(x, 1), C(0, 1)], 0x1040 + 4 * j) for j, x in enumerate(flags)] + [ins(["store", C(0x2000, 64), C(7, w)], 0x1048)]
+        b5 = [ins(["assign", S(x, 1), C(1, 1)], 0x1050 + 4 * j) for j, x in enumerate(flags)] + [ins(["store", C(0x2000, 64), C(9, w)], 0x1058)]
+        b6 = [ins(["store", C(0x3000, 64), S("a", w)], 0x1060)]
+        blocks = [[ins(["assign", S("c", 1), ["cmpltu", S("a", w), C(k0, w)]], 0x1000)], arm1, arm2, join, b4, b5, b6]
+        bl = [{"index": bi, "instructions": [dict(x, index=j) for j, x in enumerate(b)], "phis": []} for bi, b in enumerate(blocks)]
+        edges = [{"head": 0, "tail": 1, "cond": S("c", 1)}, {"head": 0, "tail": 2, "cond": ["cmpeq", S("c", 1), C(0, 1)]}, {"head": 1, "tail": 3, "cond": None}, {"head": 2, "tail": 3, "cond": None},
+                 {"head": 3, "tail": 4, "cond": guard}, {"head": 3, "tail": 5, "cond": ["cmpeq", guard, C(0, 1)]}, {"head": 4, "tail": 6, "cond": None}, {"head": 5, "tail": 6, "cond": None}]
+        out.append({"address": 0x1000, "cfg": {"entry": 0, "exit": 6, "blocks": bl, "edges": edges}, "meta": {"skeleton": "flag-diamond", "profile": "guard-only-use", "id": i}})
+    return out
+
+
 def check_one(item):
     f = ilcheck.view(item["f"]); tier = item["tier"]
     res = {"id": f["meta"], "status": None}
@@ -249,6 +276,7 @@ def main():
     for f in holed:
         ilgen.add_holes(f, hr); f["meta"]["holes"] = True
     fs += holed
+    fs += flag_diamonds(random.Random(rep.seed * 31 + 9), 8 if rep.tier == "quick" else 60)
     fs += ilcheck.lifted_corpus(rep.tier)
     items = [{"f": f, "tier": rep.tier} for f in fs]
     results = common.pmap(check_one, items, chunksize=2)
